@@ -6,6 +6,7 @@ import (
 	"crypto/sha256"
 	"encoding/hex"
 	"fmt"
+	"github.com/ipld/go-ipld-prime/datamodel"
 	"io"
 	"os"
 	"path/filepath"
@@ -172,6 +173,33 @@ func ReplayStorage(cs *StCase, target string, profile int, scratch string) (f *r
 			case "put":
 				err = storage.Put(ctx, st, key, content)
 			case "stream":
+				if (k+profile)%2 == 1 {
+					// Every other streamed put goes the way a LinkSystem writes blocks: through the opener that
+					// LinkSystem.SetWriteStorage builds for this store, with ANOTHER block write opened, written and
+					// left pending on the same link system before this one is committed (two stores in flight).
+					var lsys linking.LinkSystem
+					lsys.SetWriteStorage(st)
+					w1, c1, e := lsys.StorageWriteOpener(linking.LinkContext{Ctx: ctx})
+					if e != nil {
+						return e
+					}
+					half := len(content) / 2
+					if _, e := w1.Write(content[:half]); e != nil {
+						return e
+					}
+					w2, _, e := lsys.StorageWriteOpener(linking.LinkContext{Ctx: ctx})
+					if e != nil {
+						return e
+					}
+					if _, e := w2.Write([]byte("<another block, still being written when the first one is committed>")); e != nil {
+						return e
+					}
+					if _, e := w1.Write(content[half:]); e != nil {
+						return e
+					}
+					err = c1(keyLink(key))
+					break
+				}
 				wr, commit, e := storage.PutStream(ctx, st)
 				if e != nil {
 					return e
@@ -374,3 +402,11 @@ func escaped(sandbox, base string) string {
 	})
 	return strings.Join(bad, ", ")
 }
+
+// keyLink is a datamodel.Link whose binary form is a storage key of the history (the committer built by
+// LinkSystem.SetWriteStorage stores a block under link.Binary()).
+type keyLink string
+
+func (l keyLink) Prototype() datamodel.LinkPrototype { return nil }
+func (l keyLink) String() string                     { return "keyLink:" + string(l) }
+func (l keyLink) Binary() string                     { return string(l) }
